@@ -47,6 +47,20 @@ func (p *parser) hasNewLine(start, end int) bool {
 	return strings.ContainsRune(p.text[start:end], '\n')
 }
 
+// hasNewLineBefore reports whether the white space directly before pos contains a new line.
+func (p *parser) hasNewLineBefore(pos int) bool {
+	for i := pos - 1; i >= 0; i-- {
+		switch p.text[i] {
+		case '\n':
+			return true
+		case ' ', '\t', '\r':
+		default:
+			return false
+		}
+	}
+	return false
+}
+
 // --------------------
 // Parsing methods
 //
@@ -456,7 +470,11 @@ func (p *parser) precedence(lhs Node, minP int) Node {
 			look = p.peek()
 		}
 
-		multiLine := p.hasNewLine(lhs.Position(), rhs.Position())
+		// A new line directly before the operator or between the operator and its right
+		// operand makes the node multi line. The position of a binary left operand is the
+		// position of its own operator, so new lines inside the left operand do not count:
+		// they would spread to one more enclosing node with every formatting pass.
+		multiLine := p.hasNewLineBefore(op.pos) || p.hasNewLine(op.pos, rhs.Position())
 		lhs = newBinary(p.position(op.pos), op.typ, lhs, rhs, multiLine, c)
 	}
 	return lhs
